@@ -296,7 +296,7 @@ class _AsmKB:
         return 1
 
 
-def case_assembled(log, kind):
+def case_assembled(log, kind, mode="unvaried"):
     """The operator is assembled element by element: quad_ker_qcd / quad_ker_qed / quad_ker_ome are asked for one (mode0, mode1) pair
     at a time and pick it with the element selectors.  With a sum-rule-respecting kernel handed back by the (stubbed) dispatcher /
     OME tower, the assembled matrix sum_{mode0} E[mode0, mode1] must again give the conserved vector -- rows and columns in the
@@ -305,8 +305,8 @@ def case_assembled(log, kind):
     import eko.scale_variations as svmod
     from eko.kernels import EvoMethods
 
-    rp = (MOD, "replay_assembled", {"kind": kind})
-    key = "assembled.%s:sumrule" % kind
+    rp = (MOD, "replay_assembled", {"kind": kind, "mode": mode})
+    key = "assembled.%s:sumrule%s" % (kind, "" if mode == "unvaried" else ":" + mode)
     log.register_replay(key, rp, _sampler)
     labels, v = {"qcd": ((100, 21), (1, 1)), "qed": ((21, 22, 100, 101), (1, 1, 1, 0)), "ome": ((21, 100, 90), (1, 1, 1))}[kind]
     dim = len(labels)
@@ -326,8 +326,14 @@ def case_assembled(log, kind):
         # the conserved vector in the order the kernel modules use internally
         internal = {"qcd": (100, 21), "qed": (21, 22, 100, 101), "ome": (21, 100, 90)}[kind]
         K = constrained("k", dim, v) + I
+        # expanded scheme: the scale-variation factor (identity + terms proportional to gamma) respects the sum rule as well;
+        # the product of the two, taken as a MATRIX product in the documented order, is what the selectors must see
+        SVF = constrained("f", dim, v) + I
+        svm = svmod.Modes[mode]
         E = realnp.empty((dim, dim), dtype=object)
         try:
+            patch(qk.sv_expanded, "singlet_variation", lambda *a, **k: SVF.copy())
+            patch(qk.sv_expanded, "singlet_variation_qed", lambda *a, **k: SVF.copy())
             if kind == "qcd":
                 patch(qk.ad_us, "gamma_singlet", lambda *a, **k: "gamma-token")
                 patch(qk.s, "dispatcher", lambda *a, **k: K.copy())
@@ -341,17 +347,17 @@ def case_assembled(log, kind):
             for i, m0 in enumerate(labels):
                 for j, m1 in enumerate(labels):
                     if kind == "qcd":
-                        E[i, j] = qk.quad_ker_qcd(_AsmKB("qcd"), (2, 0), m0, m1, EvoMethods.ITERATE_EXACT, a_s, SR.var("a0"), 4, SR.var("L"), 1, (2, 0), svmod.Modes.unvaried, False, False, False, (0,) * 7, False)
+                        E[i, j] = qk.quad_ker_qcd(_AsmKB("qcd"), (2, 0), m0, m1, EvoMethods.ITERATE_EXACT, a_s, SR.var("a0"), 4, SR.var("L"), 1, (2, 0), svm, False, False, False, (0,) * 7, False)
                     elif kind == "qed":
                         E[i, j] = qk.quad_ker_qed(_AsmKB("qed"), (2, 1), m0, m1, EvoMethods.ITERATE_EXACT, [SR.var("a0"), a_s], SR.var("m0"), SR.var("m1"), realnp.array([[SR.var("ah"), SR.var("aem")]], dtype=object), False,
-                                                  4, SR.var("L"), 1, (2, 0), svmod.Modes.unvaried, False, (0,) * 7, False)
+                                                  4, SR.var("L"), 1, (2, 0), svm, False, (0,) * 7, False)
                     else:
                         E[i, j] = qk.quad_ker_ome(0.5, (3, 0), m0, m1, True, SR.var("logx"), ("areas",), a_s, 4, SR.var("Lh"), svmod.Modes.unvaried, SR.var("L"), None, False, False, False)
         finally:
             for obj, attr, val in reversed(saved):
                 setattr(obj, attr, val)
         # v is given in the order of `labels`
-        _vE(log, E, v, "operator assembled from single elements (%s)" % kind, key, rp)
+        _vE(log, E, v, "operator assembled from single elements (%s%s)" % (kind, "" if mode == "unvaried" else ", " + mode + " scale variation"), key, rp)
         log.twin("domain")
         log.collect_ctx()
 
@@ -359,7 +365,7 @@ def case_assembled(log, kind):
     log.path_stats(pm)
 
 
-def replay_assembled(point, kind):
+def replay_assembled(point, kind, mode="unvaried"):
     import importlib
     from unittest import mock
     import numpy as np
@@ -372,6 +378,8 @@ def replay_assembled(point, kind):
     rng = np.random.default_rng(3)
     K = _rand_constrained(rng, dim, v) + np.eye(dim)
     A = np.array([_rand_constrained(rng, dim, v) for _ in range(3)])
+    SVF = _rand_constrained(rng, dim, v) + np.eye(dim)
+    svm = svmod.Modes[mode]
 
     class KB:
         def __init__(self, *a):
@@ -383,13 +391,14 @@ def replay_assembled(point, kind):
     E = np.zeros((dim, dim), dtype=complex)
     with mock.patch.object(qk.ad_us, "gamma_singlet", lambda *a, **k: None), mock.patch.object(qk.s, "dispatcher", lambda *a, **k: K.copy()), \
             mock.patch.object(qk.ad_us, "gamma_singlet_qed", lambda *a, **k: None), mock.patch.object(qk.qed_s, "dispatcher", lambda *a, **k: K.copy()), \
-            mock.patch.object(qk, "QuadKerBase", KB), mock.patch.object(qk.ome_us, "A_singlet", lambda *a, **k: A.copy()):
+            mock.patch.object(qk, "QuadKerBase", KB), mock.patch.object(qk.ome_us, "A_singlet", lambda *a, **k: A.copy()), \
+            mock.patch.object(qk.sv_expanded, "singlet_variation", lambda *a, **k: SVF.copy()), mock.patch.object(qk.sv_expanded, "singlet_variation_qed", lambda *a, **k: SVF.copy()):
         for i, m0 in enumerate(labels):
             for j, m1 in enumerate(labels):
                 if kind == "qcd":
-                    E[i, j] = qk.quad_ker_qcd(KB(), (2, 0), m0, m1, EvoMethods.ITERATE_EXACT, 0.02, 0.03, 4, 0.0, 1, (2, 0), svmod.Modes.unvaried, False, False, False, (0,) * 7, False)
+                    E[i, j] = qk.quad_ker_qcd(KB(), (2, 0), m0, m1, EvoMethods.ITERATE_EXACT, 0.02, 0.03, 4, 0.7, 1, (2, 0), svm, False, False, False, (0,) * 7, False)
                 elif kind == "qed":
-                    E[i, j] = qk.quad_ker_qed(KB(), (2, 1), m0, m1, EvoMethods.ITERATE_EXACT, np.array([0.03, 0.02]), 10.0, 100.0, np.array([[0.025, 0.0007]]), False, 4, 0.0, 1, (2, 0), svmod.Modes.unvaried, False, (0,) * 7, False)
+                    E[i, j] = qk.quad_ker_qed(KB(), (2, 1), m0, m1, EvoMethods.ITERATE_EXACT, np.array([0.03, 0.02]), 10.0, 100.0, np.array([[0.025, 0.0007]]), False, 4, 0.7, 1, (2, 0), svm, False, (0,) * 7, False)
                 else:
                     # quad_ker_ome returns Re(element * integrand): use a real tower
                     E[i, j] = qk.quad_ker_ome(0.5, (3, 0), m0, m1, True, -1.0, None, 0.03, 4, 0.0, svmod.Modes.unvaried, 0.0, None, False, False, False)
@@ -536,6 +545,8 @@ def main():
             chk.case("sv.qed.o%d%d.nf%d" % (od[0], od[1], nf), case_sv, order=od, nf=nf, qed=True)
     for kind in ("qcd", "qed", "ome"):
         chk.case("assembled.%s" % kind, case_assembled, kind=kind)
+        if kind != "ome":
+            chk.case("assembled.%s.expanded" % kind, case_assembled, kind=kind, mode="expanded")
     for mo in (0, 1, 2, 3):
         for mth in ("FORWARD", "BACKWARD_EXPANDED", "BACKWARD_EXACT"):
             chk.case("ome.%s.o%d" % (mth, mo), case_ome, morder=mo, method=mth)
